@@ -24,7 +24,8 @@ Inductive task :=
 | TPoolShut (h sid : nat) (cb : bool).
 Inductive ev :=
 | EFail (h : nat) | EStatusDown (h : nat) | EStatusUp (h : nat) | EAdd (h : nat) | ERemove (h : nat)
-| EReconnect (k : nat) (o : outcome) | ERun (k : nat) (o : outcome).
+| EReconnect (k : nat) (o : outcome) | ERun (k : nat) (o : outcome)
+| EProbeStart (k : nat) | EProbeFinish (j : nat) (o : outcome).
 (* notifications: kind 0 up, 1 down, 2 add, 3 remove; NAttempt = a reconnector opened a connection to host h *)
 Inductive note := NL (kind h : nat) | NP (kind h : nat) | NAttempt (h : nat).
 
@@ -34,17 +35,21 @@ Record hst := mkh { present : nat (* 0 absent, 1 in metadata, 2 removed *);
                     pools : nat -> nat (* session -> 0 none, 1 pool whose connection died, 2 pool with open connection *) }.
 Record rcn := mkr { rhost : nat; radd : bool; rcanc : bool; rleft : option nat; rstop : bool }.
 Record st := mks { hosts : nat -> hst; recs : nat -> rcn; nrecs : nat; queue : list task; timers : list nat;
+                   probes : list nat (* reconnectors whose connection attempt is in flight *);
                    gfail : list nat; nextg : nat; order : list nat; nsess : nat; sched : option nat; out : list note }.
 
-Definition set_hosts s v := mks v (recs s) (nrecs s) (queue s) (timers s) (gfail s) (nextg s) (order s) (nsess s) (sched s) (out s).
-Definition set_recs s v := mks (hosts s) v (nrecs s) (queue s) (timers s) (gfail s) (nextg s) (order s) (nsess s) (sched s) (out s).
-Definition set_nrecs s v := mks (hosts s) (recs s) v (queue s) (timers s) (gfail s) (nextg s) (order s) (nsess s) (sched s) (out s).
-Definition set_queue s v := mks (hosts s) (recs s) (nrecs s) v (timers s) (gfail s) (nextg s) (order s) (nsess s) (sched s) (out s).
-Definition set_timers s v := mks (hosts s) (recs s) (nrecs s) (queue s) v (gfail s) (nextg s) (order s) (nsess s) (sched s) (out s).
-Definition set_gfail s v := mks (hosts s) (recs s) (nrecs s) (queue s) (timers s) v (nextg s) (order s) (nsess s) (sched s) (out s).
-Definition set_nextg s v := mks (hosts s) (recs s) (nrecs s) (queue s) (timers s) (gfail s) v (order s) (nsess s) (sched s) (out s).
-Definition set_order s v := mks (hosts s) (recs s) (nrecs s) (queue s) (timers s) (gfail s) (nextg s) v (nsess s) (sched s) (out s).
-Definition set_out s v := mks (hosts s) (recs s) (nrecs s) (queue s) (timers s) (gfail s) (nextg s) (order s) (nsess s) (sched s) v.
+Definition set_hosts s v := mks v (recs s) (nrecs s) (queue s) (timers s) (probes s) (gfail s) (nextg s) (order s) (nsess s) (sched s) (out s).
+Definition set_recs s v := mks (hosts s) v (nrecs s) (queue s) (timers s) (probes s) (gfail s) (nextg s) (order s) (nsess s) (sched s) (out s).
+Definition set_nrecs s v := mks (hosts s) (recs s) v (queue s) (timers s) (probes s) (gfail s) (nextg s) (order s) (nsess s) (sched s) (out s).
+Definition set_queue s v := mks (hosts s) (recs s) (nrecs s) v (timers s) (probes s) (gfail s) (nextg s) (order s) (nsess s) (sched s) (out s).
+Definition set_timers s v := mks (hosts s) (recs s) (nrecs s) (queue s) v (probes s) (gfail s) (nextg s) (order s) (nsess s) (sched s) (out s).
+Definition set_probes s v := mks (hosts s) (recs s) (nrecs s) (queue s) (timers s) v (gfail s) (nextg s) (order s) (nsess s) (sched s) (out s).
+Definition set_gfail s v := mks (hosts s) (recs s) (nrecs s) (queue s) (timers s) (probes s) v (nextg s) (order s) (nsess s) (sched s) (out s).
+Definition set_nextg s v := mks (hosts s) (recs s) (nrecs s) (queue s) (timers s) (probes s) (gfail s) v (order s) (nsess s) (sched s) (out s).
+Definition set_order s v := mks (hosts s) (recs s) (nrecs s) (queue s) (timers s) (probes s) (gfail s) (nextg s) v (nsess s) (sched s) (out s).
+Definition set_nsess s v := mks (hosts s) (recs s) (nrecs s) (queue s) (timers s) (probes s) (gfail s) (nextg s) (order s) v (sched s) (out s).
+Definition set_sched s v := mks (hosts s) (recs s) (nrecs s) (queue s) (timers s) (probes s) (gfail s) (nextg s) (order s) (nsess s) v (out s).
+Definition set_out s v := mks (hosts s) (recs s) (nrecs s) (queue s) (timers s) (probes s) (gfail s) (nextg s) (order s) (nsess s) (sched s) v.
 
 Definition updh (s : st) (h : nat) (f : hst -> hst) : st :=
   set_hosts s (fun x => if x =? h then f (hosts s x) else hosts s x).
@@ -187,14 +192,13 @@ Definition run_task (s : st) (t : task) (o : outcome) : st :=
 Fixpoint remove_nth {A} (k : nat) (l : list A) : list A :=
   match l, k with [] , _ => [] | _ :: t, O => t | x :: t, S k' => x :: remove_nth k' t end.
 
-(* _ReconnectionHandler.run *)
-Definition reconnect (s : st) (r : nat) (o : outcome) : st :=
+(* _ReconnectionHandler.run, second half: try_reconnect() has returned (or raised); r is no longer scheduled *)
+Definition probe_finish (s : st) (r : nat) (o : outcome) : st :=
   let c := recs s r in
-  if rcanc c then s else
   let h := rhost c in
-  let s := emit s (NAttempt h) in
   match o with
-  | OOk => let s := if radd c then on_add s h else on_up s h in
+  | OOk => if rcanc c then s else                           (* `if not self._cancelled:` after the connect *)
+           let s := if radd c then on_add s h else on_up s h in
            updh s h (h_reg None)                           (* callback: get_and_set_reconnection_handler(None) *)
   | OFail => match rleft c with
              | Some O => updr s r (r_stop true)
@@ -203,6 +207,14 @@ Definition reconnect (s : st) (r : nat) (o : outcome) : st :=
              end
   | OAuth => updr s r (r_stop true)
   end.
+
+(* _ReconnectionHandler.run as one step (nothing happens while the connection attempt is in flight) *)
+Definition reconnect (s : st) (r : nat) (o : outcome) : st :=
+  if rcanc (recs s r) then s else probe_finish (emit s (NAttempt (rhost (recs s r)))) r o.
+
+(* first half: `if self._cancelled: return`, then the connection attempt starts *)
+Definition probe_start (s : st) (r : nat) : st :=
+  if rcanc (recs s r) then s else set_probes (emit s (NAttempt (rhost (recs s r)))) (probes s ++ [r]).
 
 Definition known (s : st) (h : nat) : bool := negb (present (hosts s h) =? 0).
 
@@ -225,6 +237,14 @@ Definition step_ (s : st) (e : ev) : st :=
                 | Some t => run_task (set_queue s (remove_nth k (queue s))) t o
                 | None => s
                 end
+  | EProbeStart k => match nth_error (timers s) k with
+                     | Some r => probe_start (set_timers s (remove_nth k (timers s))) r
+                     | None => s
+                     end
+  | EProbeFinish j o => match nth_error (probes s) j with
+                        | Some r => probe_finish (set_probes s (remove_nth j (probes s))) r o
+                        | None => s
+                        end
   end.
 
 Definition step (s : st) (e : ev) : st * list note :=
@@ -240,7 +260,7 @@ Definition init_host (k : nat) : hst :=
   | _ => mkh 0 2 None false false (fun _ => 0)
   end.
 Definition init (kinds : list nat) (ns : nat) (sc : option nat) : st :=
-  mks (fun h => init_host (nth h kinds 0)) (fun _ => mkr 0 false true None false) 0 [] [] [] 0
+  mks (fun h => init_host (nth h kinds 0)) (fun _ => mkr 0 false true None false) 0 [] [] [] [] 0
       (filter (fun h => negb (nth h kinds 0 =? 0)) (seq 0 (length kinds))) ns sc [].
 
 (* ---------------------------------------------------------------- observation (compared with the implementation) *)
@@ -261,7 +281,7 @@ Definition obs_task (t : task) : Z :=
 Definition obs_note (n : note) : list Z :=
   match n with NL k h => [100 + 10 * zn k + zn h] | NP k h => [200 + 10 * zn k + zn h] | NAttempt h => [300 + zn h] end.
 Definition obs (nh : nat) (s : st) (o : list note) : list Z :=
-  flat_map (obs_host s) (seq 0 nh) ++ [-1] ++ map obs_task (queue s) ++ [-2] ++ map zn (timers s)
+  flat_map (obs_host s) (seq 0 nh) ++ [-1] ++ map obs_task (queue s) ++ [-2] ++ map zn (timers s) ++ [-6] ++ map zn (probes s)
   ++ [-3] ++ map (fun r => 10 * zn (rhost (recs s r)) + Z.b2z (rcanc (recs s r))) (seq 0 (nrecs s))
   ++ [-4] ++ flat_map obs_note o.
 
